@@ -300,30 +300,35 @@ Proof.
 Qed.
 
 (** ---- through the cassette ---- *)
+(** the characters of a base64 text are bytes (in fact ASCII) *)
+Lemma b64enc_bytes_ok b : bytes_ok (b64enc b) = true.
+Proof.
+  unfold bytes_ok. apply forallb_forall. intros c I. apply b64enc_chars_in_alphabet in I.
+  assert (A : forallb (fun x => (x <? 256)%N) ALPHABET = true) by (vm_compute; reflexivity).
+  rewrite forallb_forall in A. exact (A c I).
+Qed.
+
 Section Trip.
   Variable qp : list N -> str.
   Variable qp_dec : str -> list N.
-  Hypothesis qp_roundtrip : forall b, qp_dec (qp b) = b.
+  (** wp-audit: the coding of bytes has to invert on BYTE strings only (every element < 256): the only byte
+      strings that travel here are a base64 text and the placeholder.  The earlier hypothesis
+      [forall b, qp_dec (qp b) = b], over every [list N], is met by [Codec.qp_simple] with the decoder
+      [JsonParse.qp_dec_simple] but not with the heap model's decoder [Heap.qp_dec_simple] ([256] comes back as
+      [0]); the guarded form is met by both and is all the proofs below need. *)
+  Hypothesis qp_roundtrip : forall b, bytes_ok b = true -> qp_dec (qp b) = b.
 
-  Lemma cassette_trip_wf v : wf v = true -> cassette_trip qp qp_dec v = Some (canon v).
-  Proof.
-    intros W. destruct (restore_flatten qp qp_dec qp_roundtrip v W) as [j [F R]].
-    unfold cassette_trip. rewrite F. exact R.
-  Qed.
-
-  Lemma record_wf (p : str) (c : list N) : str_ok p = true ->
-    wf (VDict [(K_PATH, VStr p); (K_CONTENT, VBytes c)]) = true.
-  Proof. intros Hp. cbn. rewrite Hp. reflexivity. Qed.
-
-  Lemma record_canon (p : str) (c : list N) :
-    canon (VDict [(K_PATH, VStr p); (K_CONTENT, VBytes c)]) = VDict [(K_CONTENT, VBytes c); (K_PATH, VStr p)].
+  (** the file record through flatten / restore, computed directly: dict items come back in key order *)
+  Lemma cassette_trip_record (p : str) (c : list N) :
+    cassette_trip qp qp_dec (VDict [(K_PATH, VStr p); (K_CONTENT, VBytes c)])
+    = Some (VDict [(K_CONTENT, VBytes (qp_dec (qp c))); (K_PATH, VStr p)]).
   Proof. reflexivity. Qed.
 
   Lemma trip_serialized b p : str_ok p = true -> bytes_ok b = true ->
     exists v', cassette_trip qp qp_dec (serialize_file b p) = Some v' /\ deserialize_file v' = Ans (VStr p, b).
   Proof.
-    intros Hp Hb. eexists. split.
-    - unfold serialize_file. rewrite cassette_trip_wf by (apply record_wf; exact Hp). rewrite record_canon. reflexivity.
+    intros _ Hb. eexists. split.
+    - unfold serialize_file. rewrite cassette_trip_record, (qp_roundtrip _ (b64enc_bytes_ok b)). reflexivity.
     - apply (deserialize_pair (VStr p) _ b (decode_b64 b Hb)).
   Qed.
 
@@ -331,8 +336,8 @@ Section Trip.
     exists v', cassette_trip qp qp_dec (above_limit_result p) = Some v' /\
                deserialize_file v' = Ans (VStr p, PLACEHOLDER).
   Proof.
-    intros Hp. eexists. split.
-    - unfold above_limit_result. rewrite cassette_trip_wf by (apply record_wf; exact Hp). rewrite record_canon. reflexivity.
+    intros _. eexists. split.
+    - unfold above_limit_result. rewrite cassette_trip_record, (qp_roundtrip _ placeholder_bytes_ok). reflexivity.
     - apply (deserialize_pair (VStr p) _ _ decode_placeholder).
   Qed.
 
@@ -467,7 +472,7 @@ Qed.
 (** a file whose content is the placeholder text is recorded as its base64 text (which differs from the
     above-limit record) and comes back as that file *)
 Theorem input_roundtrip_placeholder_content
-  (qp : list N -> str) (qp_dec : str -> list N) (qp_roundtrip : forall b, qp_dec (qp b) = b)
+  (qp : list N -> str) (qp_dec : str -> list N) (qp_roundtrip : forall b, bytes_ok b = true -> qp_dec (qp b) = b)
   fsize fread writable h args_rec kw_rec args_play kw_play p_rec p_play fs_play :
     passes_path h args_rec kw_rec p_rec -> passes_path h args_play kw_play p_play ->
     str_ok p_rec = true -> within_limit h fsize p_rec -> fread p_rec = Ans PLACEHOLDER ->
